@@ -168,3 +168,24 @@ def parser_errors_printable():
         check(cls.__name__ + "_keywords", e2.line_number == n and e2.line == "the line" and getattr(e2, f) == "foo")
     m = PE.MemorySizeException(sym_int("words", 0))
     check("MemorySizeException_prints", type(m.__repr__()) is str)
+
+
+# ---- C14: "error messages" print the instruction so that the text re-assembles to the instruction at the reported
+# address: the fault report carries repr() of exactly the faulting instruction (in both modes)
+def c14_fault(mn):
+    @unit("C14/fault-report-prints-the-faulting-instruction/single-cycle/" + mn, expect_reach=("fault",))
+    def a():
+        st, regs0 = havoc_state()
+        ins, rd, rs1, rs2, imm = build(mn)
+        pc = sym_int("pc", 0, IMEM_TOP - 4)
+        place(st, ins, pc)
+        e = S.step(mn, rd, rs1, rs2, imm, lambda i: int(regs0[i]), lambda a_: byte_at(st.memory, a_), pc, LO)
+        run_and_compare(st, regs0, ins, pc, e)
+
+    @unit("C14/fault-report-prints-the-faulting-instruction/five-stage/" + mn, expect_reach=("fault",))
+    def b():
+        single_instruction(mn)
+
+
+for _mn in ("lw", "lb", "sw", "sh"):
+    c14_fault(_mn)
